@@ -187,6 +187,38 @@ void apiCase(size_t idx) {
 	nif.SetDefaultPartition(s);
 	nif.UpdateSkinPartitions(s);
 	if (!checkNow(nif, s, true, what, "SetDefaultPartition+UpdateSkinPartitions")) return;
+	if ((idx / 4) % 2 == 0) {
+		// a new triangle list of another length on the skinned shape, then the documented rebuild: whatever the partition block cached
+		// about the old list (labels per triangle, true triangles) must not survive into the new partitions
+		NiVector<BSDismemberSkinInstance::PartitionInfo> pinf;
+		std::vector<int> tp;
+		nif.GetShapePartitions(s, pinf, tp);   // fills the caches
+		std::vector<Triangle> t2;
+		s->GetTriangles(t2);
+		uint16_t nv = s->GetNumVertices();
+		int kind = (int)rng.below(3);
+		if (kind != 1 && t2.size() > 2) t2.resize(t2.size() - 1 - rng.below((uint32_t)t2.size() / 2));   // fewer
+		if (kind != 0 && nv >= 3)                                                                       // more (or other ones)
+			for (int k = 0, add = 1 + (int)rng.below(6); k < add; k++) {
+				uint16_t a = (uint16_t)rng.below(nv), b = (uint16_t)((a + 1 + rng.below(nv - 1)) % nv), c = a;
+				while (c == a || c == b) c = (uint16_t)rng.below(nv);
+				t2.push_back(Triangle(a, b, c));
+			}
+		R_phase("SetTriangles");
+		s->SetTriangles(t2);
+		R_phase("UpdateSkinPartitions(after SetTriangles)");
+		nif.UpdateSkinPartitions(s);
+		s = nif.GetShapes().at(0);
+		std::string w3 = what + fmt(" [new triangle list of %zu triangles]", t2.size());
+		if (!checkNow(nif, s, true, w3, "SetTriangles+UpdateSkinPartitions")) return;
+		NiVector<BSDismemberSkinInstance::PartitionInfo> p2;
+		std::vector<int> tp2;
+		std::vector<Triangle> now;
+		s->GetTriangles(now);
+		if (!nif.GetShapePartitions(s, p2, tp2) || tp2.size() != now.size()) { R_viol("api", "GetShapePartitions/triParts-size", w3 + fmt(": %zu labels for %zu triangles after SetTriangles+UpdateSkinPartitions", tp2.size(), now.size())); return; }
+		checkReload(nif, w3, "SetTriangles+UpdateSkinPartitions");
+		R_stat("triangle_lists_replaced_before_a_rebuild");
+	}
 	checkReload(nif, what, "final");
 	R_cover(fmt("api/%s/%016llx", ao.version, (unsigned long long)seed));
 	if (idx % 41 == 0) R_sample(fmt("{\"source\":\"api\",\"model\":\"%s\",\"max_influences\":%d}", jesc(m.desc).c_str(), ao.maxInfluences));
@@ -225,7 +257,7 @@ MonReg reg({"C10", "exploration",
 			"skinned shapes built through the API in OB, FO3, SK and SSE (3..350 vertices, 1..120 triangles, 1..120 bones, 1..8 influences per vertex, tied and distinct weights) and "
 			"the skinned shapes of the real samples. Operations: CreateSkinning+UpdateSkinPartitions, three rounds of GetShapePartitions -> SetShapePartitions with random assignments "
 			"(in range, partly unassigned -1, ids past the end, all unassigned, all in one) -> UpdateSkinPartitions, RemoveEmptyPartitions, DeletePartitions followed by the "
-			"get/set/update recovery, a vertex deletion between an assignment and the next rebuild, SetDefaultPartition, and save+reload; one model in six first has its partition faces re-encoded as triangle strips with degenerate stitching (file-convention counter) and is saved untouched and after a GetShapePartitions query. Oracle after each: multiset of partition triangles (rotation-normalised) == shape triangles, vertex map == "
+			"get/set/update recovery, a vertex deletion between an assignment and the next rebuild, SetDefaultPartition, a new triangle list of another length (SetTriangles) followed by the rebuild, and save+reload; one model in six first has its partition faces re-encoded as triangle strips with degenerate stitching (file-convention counter) and is saved untouched and after a GetShapePartitions query. Oracle after each: multiset of partition triangles (rotation-normalised) == shape triangles, vertex map == "
 			"sorted set of used vertices, mapped triangles translate back, bone count <= 18 (OB/FO3) / 80 (SSE), weights >= 0 summing to 1 or 0, bone slots and partition bones in range, "
 			"counters equal array sizes, dismember list aligned; after a rebuild every partition vertex resolved through the partition's bone table equals the normalised four largest NiSkinData influences. Non-trivial = model that went through all operations.",
 			[] { return realSamples().size() + nApi(); }, run, 12, 300.0, false, false, nullptr});
